@@ -178,6 +178,7 @@ struct WrState {
     std::mutex m; std::condition_variable cv;
     bool active = false;                 // the handler issues raw writes instead of serving HTTP
     bool foreign = false;                // writes are issued from another thread
+    std::string pattern;                 // non-empty: per write L (loop thread) or F (a foreign thread, joined before the next write)
     std::vector<WriteSpec> writes;
     std::vector<std::string> script;     // per socket write call: "B" (would block) or a cap in bytes; then unlimited
     size_t next = 0;
@@ -226,12 +227,12 @@ public:
     void issueWrites(const std::shared_ptr<Tcp::Peer>& peer)
     {
         Tcp::Transport* tr = transport(); int fd = peer->fd();
-        std::vector<WriteSpec> ws; bool foreign; std::string dir;
+        std::vector<WriteSpec> ws; bool foreign; std::string dir, pattern;
         size_t base;
-        { std::lock_guard<std::mutex> g(WR.m); WR.targetFd = fd; ws = WR.writes; foreign = WR.foreign; dir = WR.dir; base = WR.promises.size();
+        { std::lock_guard<std::mutex> g(WR.m); WR.targetFd = fd; ws = WR.writes; foreign = WR.foreign; pattern = WR.pattern; dir = WR.dir; base = WR.promises.size();
           WR.promises.resize(base + ws.size(), "pending"); WR.settles.resize(base + ws.size(), 0); WR.issued = 0; }
-        auto doAll = [tr, fd, ws, dir, base] {
-            for (size_t i = 0; i < ws.size(); ++i) {
+        auto doOne = [tr, fd, ws, dir, base](size_t i) {
+            {
                 std::string data(ws[i].size, '\0');
                 for (size_t p = 0; p < data.size(); ++p) data[p] = static_cast<char>(patternByte(i, p));
                 const size_t slot = base + i;
@@ -246,9 +247,20 @@ public:
                     tr->asyncWrite(fd, RawBuffer(data, data.size())).then(onOk, onRej);
                 }
             }
+        };
+        auto doAll = [doOne, ws] {
+            for (size_t i = 0; i < ws.size(); ++i) doOne(i);
             std::lock_guard<std::mutex> g(WR.m); WR.issued = 1; WR.cv.notify_all();
         };
-        if (foreign) std::thread(doAll).detach(); else doAll();
+        if (!pattern.empty()) {
+            // mixed issuing threads, one after the other (each foreign issue is joined before the next write is issued), while the
+            // loop thread stays in this handler: the order issued is the order of the list
+            for (size_t i = 0; i < ws.size(); ++i) {
+                if (i < pattern.size() && pattern[i] == 'F') { std::thread t(doOne, i); t.join(); } else doOne(i);
+            }
+            std::lock_guard<std::mutex> g(WR.m); WR.issued = 1; WR.cv.notify_all();
+        }
+        else if (foreign) std::thread(doAll).detach(); else doAll();
     }
     void onDisconnection(const std::shared_ptr<Tcp::Peer>& peer) override { lifeLog(peer, 'D'); Http::Handler::onDisconnection(peer); }
 
@@ -295,15 +307,21 @@ public:
                                              std::lock_guard<std::mutex> g(G.m); G.sendResult = *st; G.cv.notify_all(); }).detach();
                 } else ::unlink(path.c_str());
             } else {
-                auto stream = response.stream(static_cast<Http::Code>(sc.code));
+                // an upper-case kind: the handler first moves the stream elsewhere (e.g. to keep it for a producer) and goes on with the
+                // moved-to object; a trailing 'M' moves it just before ends()
+                std::unique_ptr<Http::ResponseStream> sp(new Http::ResponseStream(response.stream(static_cast<Http::Code>(sc.code))));
+                auto moveIt = [&sp] { std::unique_ptr<Http::ResponseStream> q(new Http::ResponseStream(std::move(*sp))); sp = std::move(q); };
                 for (size_t i = 0; i < sc.chunks.size(); ++i) {
                     char kind = i < sc.lits.size() ? sc.lits[i] : 'w';
+                    if (kind >= 'A' && kind <= 'Z') { moveIt(); kind = static_cast<char>(kind - 'A' + 'a'); }
+                    Http::ResponseStream& stream = *sp;
                     if (kind == 's') stream << sc.chunks[i].c_str();
                     else if (kind == 'i') stream << atoi(sc.chunks[i].c_str());
                     else stream.write(sc.chunks[i].data(), static_cast<std::streamsize>(sc.chunks[i].size()));
                     if (i < sc.flushes.size() && sc.flushes[i] == 'f') stream.flush();
                 }
-                stream.ends();
+                if (sc.lits.size() > sc.chunks.size() && sc.lits.back() == 'M') moveIt();
+                sp->ends();
                 result = "streamed";
             }
         } catch (const std::exception& e) { err = e.what(); }
@@ -673,6 +691,40 @@ std::string opTimeout(const std::vector<std::string>& w)
     return "status=" + std::to_string(statusOf(raw)) + " handler=" + std::to_string(handled) + " closed=" + (closed ? "1" : "0") + " at=" + std::to_string(answeredAt);
 }
 
+// to2 <hdrMs> <bodyMs> <delay1> <gap> <conn 0|1>: two complete requests on ONE connection: the first delay1 ms after the connection
+// was opened, the second gap ms after the answer to the first was read (conn=1: the requests carry "Connection: keep-alive").
+// The clock of the time-outs restarts with every request (parser reset), so each request has its own deadlines.
+std::string opTimeout2(const std::vector<std::string>& w)
+{
+    if (w.size() != 6) return "bad-op";
+    Cfg c; c.hdrMs = atoi(w[1].c_str()); c.bodyMs = atoi(w[2].c_str()); c.maxReq = 1 << 16;
+    int d1 = atoi(w[3].c_str()), gap = atoi(w[4].c_str()); bool ka = w[5] == "1";
+    stopEndpoint();
+    uint16_t port = ensureEndpoint(c);
+    RespScript sc; sc.mode = "send"; sc.code = 200; sc.chunks = { "ok" };
+    int before; { std::lock_guard<std::mutex> g(G.m); G.script = sc; before = G.handled; }
+    int fd = connectTo(port); if (fd < 0) return "connect-failed";
+    const std::string REQ = std::string("POST /t HTTP/1.1\r\nHost: h\r\n") + (ka ? "Connection: keep-alive\r\n" : "") + "Content-Length: 3\r\n\r\nabc";
+    int st[2] = { 0, 0 }; bool closed = false;
+    int waits[2] = { d1, gap };
+    for (int i = 0; i < 2 && !closed; ++i) {
+        // wait, but notice a 408 / close arriving meanwhile
+        pollfd p { fd, POLLIN, 0 };
+        std::string raw;
+        if (::poll(&p, 1, waits[i]) > 0) {
+            raw = readResponse(fd, 300, &closed, false);
+            st[i] = statusOf(raw); if (raw.empty()) st[i] = 0;
+            closed = true; break;                    // the server spoke (or closed) before the request was sent
+        }
+        sendAll(fd, REQ);
+        raw = readResponse(fd, std::max(c.hdrMs, c.bodyMs) + 1500, &closed);
+        st[i] = statusOf(raw);
+    }
+    ::close(fd);
+    int handled; { std::lock_guard<std::mutex> g(G.m); handled = G.handled - before; }
+    return "s1=" + std::to_string(st[0]) + " s2=" + std::to_string(st[1]) + " handler=" + std::to_string(handled);
+}
+
 // life <hdrMs> <threads> <scripts a,b,c...>: one connection per script, all opened first, then the actions are played position by
 // position across the connections.  Actions: R full request + read the response, P partial request, C close, H half-close (shutdown
 // WR, read to EOF, close), X reset (SO_LINGER 0), T silence for hdr + 1300 ms (then read what the server sent), W wait 50 ms,
@@ -763,7 +815,7 @@ std::string opWr(const std::vector<std::string>& w)
     for (auto& t : split(w[2], ',')) { if (t.size() < 2) return "bad-op"; WriteSpec x { t[0] == 'f', strtoul(t.c_str() + 1, nullptr, 10) }; ws.push_back(x); total += x.size; }
     {
         std::lock_guard<std::mutex> g(WR.m);
-        WR.active = true; WR.foreign = w[1] == "F"; WR.writes = ws; WR.script = split(w[3], ','); WR.next = 0; WR.targetFd = -1;
+        WR.active = true; WR.foreign = w[1] == "F"; WR.pattern = w[1].size() > 1 ? w[1] : std::string(); WR.writes = ws; WR.script = split(w[3], ','); WR.next = 0; WR.targetFd = -1;
         WR.calls.clear(); WR.promises.clear(); WR.settles.clear(); WR.issued = 0; WR.dir = selfDir(); WR.holdBlocked = false; WR.attempts = 0;
     }
     Pistache::Verif::writeHook = &writeHookFn;
@@ -819,7 +871,7 @@ std::string opStall(const std::vector<std::string>& w)
     std::vector<WriteSpec> ws(static_cast<size_t>(nw), WriteSpec { false, size }); size_t total = size * static_cast<size_t>(nw);
     {
         std::lock_guard<std::mutex> g(WR.m);
-        WR.active = true; WR.foreign = false; WR.writes = ws; WR.script.clear(); WR.next = 0; WR.targetFd = -1;
+        WR.active = true; WR.foreign = false; WR.pattern.clear(); WR.writes = ws; WR.script.clear(); WR.next = 0; WR.targetFd = -1;
         WR.calls.clear(); WR.promises.clear(); WR.settles.clear(); WR.issued = 0; WR.dir = selfDir(); WR.holdBlocked = true; WR.attempts = 0;
     }
     Pistache::Verif::writeHook = &writeHookFn;
@@ -1032,6 +1084,7 @@ int main()
     ops["stall"] = opStall;
     ops["cl"] = opClient;
     ops["to"] = opTimeout;
+    ops["to2"] = opTimeout2;
     ops["rtresp"] = opRtResp;
     int rc = runLoop(ops, 30);
     stopEndpoint();
